@@ -162,13 +162,19 @@ Definition jf (w : jworld) := (api_job w, api_rv w, cache_job w, cache_rv w, job
 
 (** between two versions of the Job in the API: recorded names kept, a start time that is set
     stays what it is *)
-Definition jkeeps (x y : job) : Prop := keeps x y /\ (forall t, j_start x = Some t -> j_start y = Some t).
+Definition same_spec (x y : job) : Prop := j_indexes y = j_indexes x /\ j_max_attempts y = j_max_attempts x.
+Definition jkeeps (x y : job) : Prop :=
+  keeps x y /\ (forall t, j_start x = Some t -> j_start y = Some t) /\ same_spec x y.
 Lemma jkeeps_refl x : jkeeps x x.
-Proof. split; [apply keeps_refl|auto]. Qed.
+Proof. split; [apply keeps_refl|]. split; [auto|split; reflexivity]. Qed.
 Lemma jkeeps_trans a b c : jkeeps a b -> jkeeps b c -> jkeeps a c.
-Proof. intros [K1 S1] [K2 S2]. split; [eapply keeps_trans; eauto|auto]. Qed.
-Lemma jkeeps_same x y : j_tasks y = j_tasks x -> j_start y = j_start x -> jkeeps x y.
-Proof. intros E1 E2. split; [now apply keeps_same_tasks|intros t; congruence]. Qed.
+Proof.
+  intros (K1 & S1 & E1 & M1) (K2 & S2 & E2 & M2). split; [eapply keeps_trans; eauto|]. split; [auto|].
+  split; congruence.
+Qed.
+Lemma jkeeps_same x y : j_tasks y = j_tasks x -> j_start y = j_start x ->
+  j_indexes y = j_indexes x -> j_max_attempts y = j_max_attempts x -> jkeeps x y.
+Proof. intros E1 E2 E3 E4. split; [now apply keeps_same_tasks|]. split; [intros t; congruence|split; assumption]. Qed.
 
 Definition okeeps (a : option job) (b : option job) : Prop :=
   match a, b with
@@ -438,7 +444,7 @@ Proof.
   unfold api_update_status. intros H Hj K. destruct (api_job w) as [a|] eqn:Ea; [|injection H as <- _; apply evol_refl].
   destruct (negb (rv =? api_rv w)) eqn:Erv; [injection H as <- _; apply evol_refl|].
   apply negb_false_iff, Z.eqb_eq in Erv. specialize (Hj Erv). injection Hj as <-.
-  injection H as <- _. eapply ev_upd; [apply evol_refl| |reflexivity]. rewrite Ea. simpl. split; [exact K|auto].
+  injection H as <- _. eapply ev_upd; [apply evol_refl| |reflexivity]. rewrite Ea. simpl. split; [exact K|]. split; [auto|split; reflexivity].
 Qed.
 
 Theorem sync_one_evol cfg w w' acts ok armed :
@@ -503,7 +509,7 @@ Proof.
   - destruct (has_pod _ _); simpl; (split; [first [exact HV|eapply jv_jf; [jf_same|exact HV]]|apply okeeps_refl]).
   - destruct (api_job w) as [a|] eqn:Ea; simpl; [|split; [exact HV|rewrite Ea; exact I]].
     destruct (j_start a) eqn:Est; simpl; [split; [exact HV|rewrite Ea; apply jkeeps_refl]|].
-    split; [now apply jv_upd|]. split; [apply keeps_same_tasks; reflexivity|]. intros t. rewrite Est. discriminate.
+    split; [now apply jv_upd|]. split; [apply keeps_same_tasks; reflexivity|]. split; [intros t; rewrite Est; discriminate|split; reflexivity].
   - destruct (api_job w) as [a|] eqn:Ea; simpl; [|split; [exact HV|rewrite Ea; exact I]].
     split; [now apply jv_upd|]. apply jkeeps_same; reflexivity.
   - destruct (api_delete_job w) as [w' out] eqn:E. simpl. apply api_delete_job_evol in E.
@@ -563,5 +569,5 @@ Theorem start_time_forever cfg j0 now ops1 ops2 :
 Proof.
   intros w1 w2 a1 a2 t E1 E2. destruct (jrun_keeps cfg ops1 _ (jv_init j0 now)) as [HV1 _]. fold w1 in HV1.
   destruct (jrun_keeps cfg ops2 w1 HV1) as [_ K]. fold w2 in K. rewrite E1, E2 in K. simpl in K.
-  destruct K as [_ K]. apply K.
+  destruct K as (_ & K & _). apply K.
 Qed.
